@@ -43,7 +43,8 @@ RULE = ("plays = JSON trees of mappings (string / int / float / bool / null keys
         "placed anywhere or forced into the excluded elements. Non-trivial: both plays produce a digest, "
         "their cleaned canonical forms differ (edit outside the excluded elements) and the play contains a "
         "string with a quote, backslash or delimiter sequence; distinct by the pair of cleaned canonical "
-        "forms. Exhaustive part: all pairs of a bounded universe (about 2*10^4 small plays).")
+        "forms. Exhaustive part: one global collision table over a bounded universe of small plays (about "
+        "1.5*10^5 in the quick tier) incl. plays crafted from the actual serialised text of two neighbours.")
 ASSUMPTIONS = [
     "the digest is observed as hash_play(serialize_play(exclude_dynamic_elements(play))) - the exact "
     "composition verify_play hands to GPG (sub-checks presence/verify confirm that this value reaches "
@@ -1519,5 +1520,9 @@ REGRESSIONS = [
     Reg("excluded-only", "digest", {"mode": "yaml", "edit": "scalar",
                                     "a": M((S("hosts"), S("h1")), (S("vars"), _V), (S("t"), I(1))),
                                     "b": M((S("hosts"), L(S("h2"))), (S("vars"), _V), (S("t"), I(1)))}),
+    # pinned known findings (input classes excluded from generation; see known_findings.json)
+    Reg("anchored-boolean-is-int", "digest", dict(KNOWN_CANDIDATES[0][1]), expect="known", finding="C18-anchored-bool"),
+    Reg("tagged-scalar-printed-raw", "digest", dict(KNOWN_CANDIDATES[1][1]), expect="known", finding="C18-custom-tag"),
+    Reg("tag-not-covered", "digest", dict(KNOWN_CANDIDATES[2][1]), expect="known", finding="C18-custom-tag"),
     Reg("deeper-request", "exclusion", {"mode": "py", "a": M((S("vars"), M((S(EXCL), S("/vars/a/b")), (S("a"), M((S("b"), I(1)))))))}),
 ]
